@@ -103,7 +103,9 @@ static void thrA (void *a) {
 	nsync_mu_rlock (&o->mu);                         /* extra reader round */
 	vrt_sh_set (FLAG, 1);
 	nsync_cv_broadcast (&cv);                        /* Y can acquire, Z is an nsync_wait_n record: nobody is transferred */
-	while (!vrt_sh_get (Y_READ)) vrt_yield ();
+	/* keep the read lock until Y has made its reader round (two readers: the releases take the plain-CAS path) -- unless Y went to sleep
+	   on the mutex itself behind a writer that got in between (unscripted schedules): then waiting here would be the scenario's own deadlock */
+	while (!vrt_sh_get (Y_READ) && !vrt_is_blocked (tidY)) vrt_yield ();
 	nsync_mu_runlock (&o->mu);
 	dec_round ();
 	vrt_sh_set (A_DONE, 1);
